@@ -1697,7 +1697,19 @@ def _inline_in_function(func, owner, classes, modfuncs, known, qual=None):
                 others = [x for b in body[:-1] for x in ast.walk(b)
                           if isinstance(x, ast.Name) and x.id == rv.id
                           and isinstance(x.ctx, (ast.Store, ast.Del))]
-                if len(defs) == 1 and len(others) == 1:
+                # (an attribute target is written early and read back that
+                # way: only where the local is nothing but the object under
+                # construction - every later use is `r.<attr>`)
+                bare = False
+                if isinstance(tgt, ast.Attribute) and len(defs) == 1:
+                    based = {id(x.value) for b in body[defs[0] + 1:-1]
+                             for x in ast.walk(b)
+                             if isinstance(x, ast.Attribute)}
+                    bare = any(isinstance(x, ast.Name) and x.id == rv.id
+                               and id(x) not in based
+                               for b in body[defs[0] + 1:-1]
+                               for x in ast.walk(b))
+                if len(defs) == 1 and len(others) == 1 and not bare:
                     i = defs[0]
                     body[i] = ast.copy_location(ast.Assign(
                         targets=[_clone(tgt)], value=body[i].value), body[i])
